@@ -195,6 +195,7 @@ struct Registry
     {
         Variant<T> x = blank();
         x.name = std::string(op) + ":" + sub;
+        x.fname = std::string(op) + ":" + sub.substr(0, sub.find(':')) + (form == F_ASR ? ":real" : form == F_ASI ? ":imag" : "");   // family: closure kinds and flags dropped
         x.op = opidx(op); x.form = form; x.eff = b1 || b2; x.arity = 2; x.compound = !is_base; x.alias = true; x.k1 = k1; x.fn = fn;
         add(x, std::string(op) + ":alias:" + form_name(form) + ":" + (b1 ? "1" : "0") + (b2 ? "1" : "0"), std::string(op) + ":" + form_name(form) + ":" + (x.eff ? "ieee" : "naive"));
     }
@@ -671,7 +672,7 @@ struct PairRunner
                     const T b0 = bout[2 * v.group], b1 = bout[2 * v.group + 1];
                     bool ok0 = same_mod_nan(io.out[0], b0) || same_value(io.out[0], b0), ok1 = same_mod_nan(io.out[1], b1) || same_value(io.out[1], b1);
                     if (!ok0 || !ok1)
-                        report(v, io, "C10/" + v.name + "<" + cfg<T>::name() + ">/vs-" + reg.v[v.base].name + "/result-differs",
+                        report(v, io, "C10/" + v.fname + "<" + cfg<T>::name() + ">/vs-binary-operator-on-copies/result-differs",
                                describe(v, io) + ": " + reg.v[v.base].name + " (no aliasing) gives " + fmtc(b0, b1));
                 }
             }
@@ -685,10 +686,10 @@ struct PairRunner
             if (v.alias)
             {
                 if (io.flags & c10::F_RETREF)
-                    report(v, io, "C10/" + v.name + "<" + cfg<T>::name() + ">/operands-after/return-is-not-self", describe(v, io) + ": the compound operator did not return a reference to its left operand");
+                    report(v, io, "C10/" + v.fname + "<" + cfg<T>::name() + ">/operands-after/return-is-not-self", describe(v, io) + ": the compound operator did not return a reference to its left operand");
                 if (!v.compound) {}
                 else if (!same_mod_nan(io.stor[0], io.out[0]) || !same_mod_nan(io.stor[1], io.out[1]))
-                    report(v, io, "C10/" + v.name + "<" + cfg<T>::name() + ">/operands-after/referent-not-updated", describe(v, io) + ": storage holds " + fmtc(io.stor[0], io.stor[1]));
+                    report(v, io, "C10/" + v.fname + "<" + cfg<T>::name() + ">/operands-after/referent-not-updated", describe(v, io) + ": storage holds " + fmtc(io.stor[0], io.stor[1]));
             }
             else if (v.cls != C_ACC && v.cls != C_ACCSTD) check_after<T>(v, io);
             if (judged)
@@ -928,8 +929,9 @@ static void mixed_one(const MVariant& m, const ld in[4], bool verbose)
         if (got != expect)
         {
             const char* icls = anynan ? "nan-part" : (er && ei) ? "equal" : er ? "imag-differs" : ei ? "real-differs" : "both-differ";
-            vf::violation("C10/" + m.opname + "<" + m.types + ">/" + icls + "/wrong-answer",
-                          m.name + " on " + ops + " returned " + (got ? "true" : "false") + ", comparing both parts (exact values) gives " + (expect ? "true" : "false"), rp);
+            (void)icls;   // the operand class goes into the message only: one signature per operator and ordered type pair
+            vf::violation("C10/" + m.opname + "<" + m.types + ">/mixed-value-types/wrong-answer",
+                          m.name + " on " + ops + " [" + icls + "] returned " + (got ? "true" : "false") + ", comparing both parts (exact values) gives " + (expect ? "true" : "false"), rp);
         }
         if (g_meval % 2000003 == 17)
             vf::sample(m.name + " on " + ops + " -> " + (got ? "true" : "false"), 2);
@@ -964,11 +966,11 @@ static int run_mixed(int argc, char** argv)
     int shard = 0, nshard = 1;
     long long deadline = 0;
     const char* one[5] = {nullptr, nullptr, nullptr, nullptr, nullptr};
-    bool list = false;
+    bool list = false, thorough = false;
     for (int i = 1; i < argc; ++i)
     {
         std::string s = argv[i];
-        if (s == "--tier") ++i;
+        if (s == "--tier") thorough = std::string(argv[++i]) == "thorough";
         else if (s == "--shard") { shard = atoi(argv[i + 1]); nshard = atoi(argv[i + 2]); i += 2; }
         else if (s == "--deadline") deadline = atoll(argv[++i]);
         else if (s == "--one") { for (int k = 0; k < 5; ++k) one[k] = argv[i + 1 + k]; i += 5; }
@@ -989,11 +991,13 @@ static int run_mixed(int argc, char** argv)
         // part alphabet: exactly representable small values, values that need more precision than the narrower type has
         // (0.1 and 1/3 in each precision, 1.5 and 0.75 vs int, 2^24+1 vs float, 2^53+1 vs double), range ends, inf, NaN
         const ld inf = std::numeric_limits<ld>::infinity();
-        const ld M[] = {0, -ld(0), 1, -1, 2, 3, -7, ld(0.5), ld(1.5), ld(-0.75),
-                        ld(0.1f), ld(0.1), 0.1L, ld(1.0f / 3.0f), ld(1.0 / 3.0), 1.0L / 3.0L,
-                        ld(16777216), ld(16777217), ld(-16777217), ld(9007199254740992.0), ld(9007199254740992.0) + 1, ld(2147483647), ld(-2147483647) - 1,
-                        ld(1e30f), ld(1e300), inf, -inf, std::numeric_limits<ld>::quiet_NaN()};
-        const int n = int(sizeof M / sizeof M[0]);
+        const ld Mq[] = {0, -ld(0), 1, 2, -7, ld(1.5), ld(0.1f), ld(0.1), 0.1L, ld(16777216), ld(16777217), ld(9007199254740992.0) + 1, inf, std::numeric_limits<ld>::quiet_NaN()};
+        const ld Mt[] = {0, -ld(0), 1, -1, 2, 3, -7, ld(0.5), ld(1.5), ld(-0.75),
+                         ld(0.1f), ld(0.1), 0.1L, ld(1.0f / 3.0f), ld(1.0 / 3.0), 1.0L / 3.0L,
+                         ld(16777216), ld(16777217), ld(-16777217), ld(9007199254740992.0), ld(9007199254740992.0) + 1, ld(2147483647), ld(-2147483647) - 1,
+                         ld(1e30f), ld(1e300), inf, -inf, std::numeric_limits<ld>::quiet_NaN()};
+        const ld* M = thorough ? Mt : Mq;
+        const int n = thorough ? int(sizeof Mt / sizeof Mt[0]) : int(sizeof Mq / sizeof Mq[0]);
         for (size_t vi = 0; vi < g_mixed.size(); ++vi)
         {
             if (int(vi % nshard) != shard) continue;
